@@ -13,6 +13,7 @@ import (
 	"verif/internal/bed"
 	"verif/internal/ev"
 	"verif/internal/imapc"
+	"verif/internal/kf"
 	"verif/internal/mach"
 )
 
@@ -32,10 +33,23 @@ type env struct {
 	m     *model
 	rec   *mach.Rec
 	boxes []string
+	uids  map[string]map[uint32]string // mailbox -> UID -> marker, learned from the authoritative views
 }
 
 func (e *env) fail(format string, a ...any) {
 	e.t.Fatalf("C03 violated: "+format+"\nhistory:\n%s", append(a, e.w.Bed.Hist)...)
+}
+
+func (e *env) learnUID(box string, uid uint32, marker string) {
+	if e.uids == nil {
+		e.uids = map[string]map[uint32]string{}
+	}
+
+	if e.uids[box] == nil {
+		e.uids[box] = map[uint32]string{}
+	}
+
+	e.uids[box][uid] = marker
 }
 
 // compareAll compares the authoritative content of every mailbox with the model.
@@ -60,6 +74,8 @@ func (e *env) compareAll(after string) {
 		}
 
 		for i, f := range fresh {
+			e.learnUID(box, f.UID, f.Marker)
+
 			if f.Marker != want[i].marker {
 				e.fail("after %s: mailbox %s position %d holds %s, the model %s (server %v, model %s)", after, box, i+1, f.Marker, want[i].marker, markersOf(fresh), e.m.describe(box))
 			}
@@ -109,6 +125,10 @@ func (e *env) sync(s *mach.Sess) {
 	if want := len(e.m.boxes[s.Selected].entries); len(view) != want {
 		e.fail("session %s, up to date after barrier + NOOP, sees %d messages in %s, the model holds %d", s.Name, len(view), s.Selected, want)
 	}
+}
+
+func pick[T any](t *rapid.T, label string, xs []T) T {
+	return xs[rapid.IntRange(0, len(xs)-1).Draw(t, label)]
 }
 
 func drawFlags(t *rapid.T, min, max int) []string {
@@ -182,7 +202,7 @@ func run(t *rapid.T) {
 
 	e.compareAll("setup")
 
-	dupDest, refused := false, false
+	dupDest, refused, staleMove, staleTried := false, false, false, false
 
 	pickDst := func(t *rapid.T) (string, bool) {
 		if rapid.IntRange(0, 7).Draw(t, "missing") == 0 {
@@ -386,8 +406,141 @@ func run(t *rapid.T) {
 				e.m.moveTo(s.Selected, rg.Pos, dst)
 			default:
 				e.m.copyTo(s.Selected, rg.Pos, dst)
+
+				// A copy onto the selected mailbox leaves the session's own re-additions pending behind its held-back
+				// expunges; a higher UID that enters the view before they are flushed produces the listed finding
+				// (late lower UID). Every other action flushes first anyway, the stale MOVE does not.
+				if strings.EqualFold(dst, s.Selected) && kf.Listed(mach.KfLateLowerUID) {
+					ev.Excluded(1)
+					s.Do("NOOP")
+				}
 			}
 
+			e.compareAll(r.Cmd)
+		},
+		// MOVE by a session whose view is behind: another session has removed messages it still shows (their EXPUNGE
+		// is only sent with the next command that permits it). The command addresses what the view holds; only the
+		// addressed messages the mailbox still holds can move (actionMoveMessages filters on the source mailbox), the
+		// others are gone and stay gone.
+		"staleMove": func(t *rapid.T) {
+			s := w.PickSess(t, w.FreeSelected(false))
+			if s.ReadOnly {
+				t.Skip("read-only")
+			}
+
+			// mostly: let another session remove messages of that mailbox first (its view is current, the model follows)
+			var others []*mach.Sess
+
+			for _, o := range w.Free() {
+				if o != s {
+					others = append(others, o)
+				}
+			}
+
+			if len(others) > 0 && rapid.IntRange(0, 3).Draw(t, "removeFirst") != 0 {
+				o := pick(t, "other", others)
+				src := s.Selected
+
+				if !strings.EqualFold(o.Selected, src) || o.ReadOnly {
+					w.Barrier()
+
+					if r := o.Select(src, false); !r.OK() {
+						e.fail("SELECT refused: %v", r)
+					}
+
+					e.rec.Op("%s select %s ro=false", o.Name, src)
+				}
+
+				e.sync(o)
+
+				for i, k := 0, rapid.IntRange(1, 2).Draw(t, "removals"); i < k && len(o.Mirror.Msgs) > 0; i++ {
+					p := rapid.IntRange(1, len(o.Mirror.Msgs)).Draw(t, "victim")
+
+					if rapid.Bool().Draw(t, "byMove") {
+						to := w.PickBox(t)
+						if strings.EqualFold(to, src) {
+							continue
+						}
+
+						r := o.Do(fmt.Sprintf("MOVE %d %s", p, bed.Quote(to)))
+						e.rec.Op("%s %s -> %s", o.Name, r.Cmd, r.Status)
+
+						if !r.OK() {
+							e.fail("valid MOVE refused: %v", r)
+						}
+
+						e.m.moveTo(src, []int{p - 1}, to)
+					} else {
+						r := o.Do(fmt.Sprintf(`STORE %d +FLAGS (\Deleted)`, p))
+						e.m.store(src, []int{p - 1}, "+", []string{`\Deleted`})
+
+						r2 := o.Do("EXPUNGE")
+						e.rec.Op("%s %s; EXPUNGE -> %s %s", o.Name, r.Cmd, r.Status, r2.Status)
+
+						if !r.OK() || !r2.OK() {
+							e.fail("valid STORE / EXPUNGE refused: %v %v", r, r2)
+						}
+
+						e.m.expunge(src, nil)
+					}
+
+					e.compareAll("removal by " + o.Name)
+				}
+			}
+
+			// every queued update reaches the session (in order); pending EXPUNGEs are not flushed by UID FETCH
+			w.Barrier()
+
+			view, err := w.View(s)
+			if err != nil {
+				t.Fatalf("harness: %v\nhistory:\n%s", err, w.Bed.Hist)
+			}
+
+			rg := w.DrawRange(t, s)
+			if rg == nil || len(view) != len(s.Mirror.Msgs) {
+				t.Skip("empty view")
+			}
+
+			dst := w.PickBox(t)
+			src := s.Selected
+
+			var live []string
+
+			gone := 0
+
+			for _, p := range rg.Pos {
+				mk, ok := e.uids[src][view[p].UID]
+				if !ok {
+					t.Fatalf("harness: UID %d of %s was never seen in an authoritative view\nhistory:\n%s", view[p].UID, src, w.Bed.Hist)
+				}
+
+				if e.m.boxes[src].index(mk) >= 0 {
+					live = append(live, mk)
+				} else {
+					gone++
+				}
+			}
+
+			staleTried = true
+
+			if gone > 0 {
+				staleMove = true
+			}
+
+			r := s.Do(fmt.Sprintf("%sMOVE %s %s", rg.Prefix(), rg.Text, bed.Quote(dst)))
+			e.rec.Op("%s %s (view behind by %d of %d addressed) -> %s", s.Name, r.Cmd, gone, len(rg.Pos), r.Status)
+
+			if !r.OK() {
+				e.fail("valid MOVE refused: %v", r)
+			}
+
+			if src != dst {
+				for _, mk := range live {
+					e.m.boxes[src].remove(mk)
+				}
+			}
+
+			e.m.add(dst, live)
 			e.compareAll(r.Cmd)
 		},
 		"badseq": func(t *rapid.T) {
@@ -444,7 +597,15 @@ func run(t *rapid.T) {
 		labels = append(labels, "refused-command")
 	}
 
-	ev.Case(dupDest || refused, ev.Hash(strings.Join(e.rec.Ops, ";")), labels...)
+	if staleMove {
+		labels = append(labels, "move-from-stale-view")
+	}
+
+	if staleTried {
+		labels = append(labels, "move-without-sync")
+	}
+
+	ev.Case(dupDest || refused || staleMove, ev.Hash(strings.Join(e.rec.Ops, ";")), labels...)
 
 	if ev.WantSample() {
 		ev.Sample(e.rec.Ops)
